@@ -29,8 +29,6 @@ F = [
   "undo of delete rows/columns does not restore conditional-format ranges it cut", []),
  ("insert-rows-cse-array", case([{"ArrayFormula": {"s":0,"row":1,"col":1,"w":1,"h":1,"text":"=SUM(A3:A3)"}}, {"InsertRows": {"s":0,"row":1,"n":1}}]),
   "row/column insert/delete/move re-types cells: a CSE array formula comes back as a plain formula after undo", []),
- ("insert-rows-boolean-es", case([inp(5,1,"TRUE"), {"InsertRows": {"s":0,"row":1,"n":1}}], language="es"),
-  "row/column insert/delete/move re-types cells: a boolean comes back as the text VERDADERO in a non-English language", []),
  ("insert-cols-quoted-formula", case([inp(1,1,"'=1+1"), {"InsertCols": {"s":0,"col":1,"n":1}}]),
   "row/column insert/delete/move re-types cells: quote-prefixed text '=1+1 comes back as a formula", []),
  ("delete-cols-long-number", case([inp(1,3,"123456789012345678"), {"DeleteCols": {"s":0,"col":1,"n":1}}]),
@@ -51,12 +49,16 @@ F = [
 
 F.append(("rename-after-case-variant-name", case([{"RenameSheet": [0, "sheet1"]}, {"NameNew": {"name":"nm1","scope":None,"formula":"Sheet1!$A$1:$B$3"}}, {"DuplicateSheet": 0}, {"RenameSheet": [1, "New name"]}]),
   "with a sheet renamed to a case variant of its old name (Sheet1 -> sheet1), a defined name spelled with the old case is retargeted to a different sheet when another sheet is renamed and the rename undone", []))
+F.append(("name-update-reparses-in-es-locale", case([{"NameNew": {"name":"nm1","scope":None,"formula":"Sheet1!$A$1"}}, inp(6,8,"=MAX(1,1)"), {"SetLocale": "es"}, inp(6,8,"0"), {"NameUpdate": {"name":"nm1","scope":None,"new_name":"nm2","new_scope":None,"formula":"Sheet1!$A$1"}}]),
+  "renaming a defined name re-parses every stored formula with the active locale: after set_locale(es) the stored MAX(1,1) (restored by undo) has become MAX(1.1)", []))
 register("C01", "histories", [(slug, c, what, avoid, slug == "input-implies-format") for slug, c, what, avoid in F])
 
 F2 = [
  ("autofill-redo-retypes-exponent", case([inp(6,8,"123456789012345678"), {"AutofillRows": {"a": A(0,6,7,2,1), "to_row": 5}}, "Undo", "Redo"]),
   "redo replays cell values by re-typing their display text: an auto-filled 18-digit number is re-typed as 1.23456789012346E+17 and gets the exponent format it did not have after the original operation", [], False),
 ]
+F2.append(("autofill-redo-infers-format", case([inp(9,5,"=B$8-A1*A1"), {"SelectRange": {"r1":8,"c1":1,"r2":8,"c2":1}}, {"PasteStyles": {"h":1,"w":2,"style":{"border":{},"fill":{"color":"#FF0000"},"font":{"color":"#FF0000","family":2,"name":"Inter","scheme":"minor","sz":10},"num_fmt":"0.00","quote_prefix":False}}}, {"AutofillRows": {"a": A(0,9,4,2,1), "to_row": 10}}, "Undo", "Redo"], profile="Full"),
+  "redo re-types auto-filled formulas, which infers a number format from formatted precedents that the original fill did not apply (same root cause as autofill-redo-retypes-exponent)", [], False))
 register("C02", "walk", F2)
 
 arr = [{"ArrayFormula": {"s":0,"row":2,"col":2,"w":2,"h":2,"text":"=A1:B2+1"}}]
@@ -74,6 +76,8 @@ F3 = [
  ("cf-update-dxf-not-sent", {"profile":"Full","prefix":[cfop],"ops":[{"CfUpdate": {"s":0,"idx":0,"range":"A1:A1","rule":cf}}],"flush_every_step":False},
   "update_conditional_formatting: same dxf-index defect as add_conditional_formatting", [], False),
 ]
+F3.append(("autofill-replica-infers-format", {"profile":"Full","prefix":[],"flush_every_step":False,"ops":[{"SelectCell": {"row":10,"col":1}}, {"PasteStyles": {"h":2,"w":2,"style":{"border":{},"fill":{"color":"#FF0000"},"font":{"color":"#FF0000","family":2,"name":"Inter","scheme":"minor","sz":10},"num_fmt":"0.00","quote_prefix":False}}}, inp(1,1,"0"), inp(3,5,"=Sheet2!A1*A4"), {"AutofillRows": {"a": A(0,2,4,2,3), "to_row": 9}}]},
+  "a replica applies an auto-fill by re-typing the filled cells, which infers a number format from formatted precedents that the origin did not apply", [], False))
 register("C03", "replica", F3)
 
 def arrf(r,c,w,h,t,s=0): return {"ArrayFormula": {"s":s,"row":r,"col":c,"w":w,"h":h,"text":t}}
